@@ -201,7 +201,7 @@ EDITS_THEORY = [("PTO", [0, 1]), ("FNS", ["ZM-VFNS", "FFNS", "FONLL-FFNS"]), ("T
                 ("RenScaleVar", [True, False]), ("FactScaleVar", [True, False]), ("PTODIS", [0, None]),
                 ("FONLLParts", ["full", "massless", None])]
 EDITS_OBS = [("prDIS", ["EM", "NC", "CC"]), ("ProjectileDIS", ["electron", "positron", "neutrino"]),
-             ("TargetDIS", ["proton", "isoscalar", "lead", {"Z": 2.0, "A": 4.0}]),
+             ("TargetDIS", ["proton", "isoscalar", "lead", {"Z": 2.0, "A": 4.0}, {"Z": 26, "A": 56}]),
              ("PolarizationDIS", [0.0, 0.4]), ("interpolation_polynomial_degree", [1, 2])]
 
 
